@@ -153,24 +153,24 @@ func autoBufferMode(maxSize int, dir string) func(io.Reader) (buffer.Buffer, err
 	return func(r io.Reader) (buffer.Buffer, error) {
 		// First try to read up to N bytes.
 		initial := make([]byte, maxSize)
-		actualSize, err := io.ReadFull(r, initial)
-		if err != nil {
-			if err == io.ErrUnexpectedEOF {
+		actualSize := 0
+		for actualSize < maxSize {
+			n, err := r.Read(initial[actualSize:])
+			actualSize += n
+			if err == io.EOF {
+				// Ok, the message is smaller than N. Make a MemoryBuffer and
+				// handle it in RAM.
 				log.Debugln("autobuffer: keeping the message in RAM (read", actualSize, "bytes, got EOF)")
 				return buffer.MemoryBuffer{Slice: initial[:actualSize]}, nil
 			}
-			if err == io.EOF {
-				// Special case: message with empty body.
-				return buffer.MemoryBuffer{}, nil
+			if err != nil {
+				// Some I/O error happened, bail out. This includes
+				// io.ErrUnexpectedEOF returned by the DATA reader when the
+				// connection is lost before the end of the message: it
+				// should not be confused with a short message (as
+				// io.ReadFull reports it).
+				return nil, err
 			}
-			// Some I/O error happened, bail out.
-			return nil, err
-		}
-		if actualSize < maxSize {
-			// Ok, the message is smaller than N. Make a MemoryBuffer and
-			// handle it in RAM.
-			log.Debugln("autobuffer: keeping the message in RAM (read", actualSize, "bytes, got short read)")
-			return buffer.MemoryBuffer{Slice: initial[:actualSize]}, nil
 		}
 
 		log.Debugln("autobuffer: spilling the message to the FS")
